@@ -447,6 +447,11 @@ def _translations_guard(db, r8):
                         holds = pol != neg
                         if (x['op'] == '!=') == holds:
                             ok = True
+            if not ok and pos is not None:
+                # the same test in its other spellings (`!p`, `if (p)`, `p != nullptr` behind casts): normalised guard atoms on the same access path
+                from engine.cfgq import guard_atoms
+                root = f.root_of(tgt)
+                ok = root is not None and any(a_[0] in ('nonnull', 'has_value') and a_[1] == root and a_[2] for a_ in guard_atoms(f, pos))
             inst = '%s:%s@%s' % (f.name.split('::')[-1], (n.get('txt') or '')[:30], f.loc(n).split(':')[-1])
             if ok:
                 r8.ok(inst, 'dominated by a non-null test of the translations', f.loc(n), nontrivial=False)
